@@ -37,3 +37,33 @@ package definition
 //@ loop 2
 //@   invariant forall a int, b int :: (0 <= a && a <= $i1 && hasWait(f.nodes[a]) && 0 <= b && b < len(f.nodes[a].(*node).exits)) ==> listed(exitUUIDs, f.nodes[a].(*node).exits[b].(*exit).uuid)
 //@   invariant forall b int :: (0 <= b && b <= $i2) ==> listed(exitUUIDs, f.nodes[$i1 + 1].(*node).exits[b].(*exit).uuid)
+
+// ---- C10: a flow that cannot be loaded is no flow. Every loader hands back a nil flow together with its error, so that
+// a run restored over a missing or no longer valid definition has no flow (ReadRun), which tryToResume turns into a
+// failed session with a failure event instead of a Go error or a panic further on.
+//@ pure flowLoaded(f flows.Flow) bool
+
+//@ func NewFlow
+//@   havocs validate, UUID
+//@   assigns computed
+//@   ensures [error_means_no_flow] !isnil(result1) ==> isnil(result0)
+//@ loop 1
+//@   invariant true
+
+//@ func readFlow
+//@   havocs MigrateToLatest, Unmarshal, UnmarshalAndValidate, IsVersionSupported
+//@   assigns computed
+//@   ensures [error_means_no_flow] !isnil(result1) ==> isnil(result0)
+//@ loop 1
+//@   invariant true
+
+//@ func ReadAsset
+//@   havocs Definition
+//@   assigns computed
+//@   ensures [error_means_no_flow] !isnil(result1) ==> isnil(result0)
+
+//@ func (a *flowAssets) Get
+//@   havocs Lock, Unlock, FlowByUUID, UUID
+//@   assigns computed
+//@   ensures [error_means_no_flow] !isnil(result1) ==> isnil(result0)
+//@   records isnil(result1) ==> flowLoaded(result0)
